@@ -1,4 +1,4 @@
-\* C05 quick: 3 instances share 2 token positions; single-entry updates, local CAS, token re-claims.
+\* C05 quick: 3 instances share 2 token positions; single-entry updates, local CAS, token re-claims; the clock reads 2 (ties with the newest entries).
 CONSTANTS
   N = 3
   M = 2
@@ -6,7 +6,8 @@ CONSTANTS
   TsSet = {1, 2}
   LiveSt = {"ACTIVE", "LEAVING"}
   MaxUpd = 1
-  MaxClock = 1
+  Clock0 = 2
+  MaxClock = 2
   ThinK = @@THINK@@
   ThinR = @@THINR@@
 INIT Init
